@@ -339,6 +339,31 @@ Section Flags.
   Proof. intros D. rewrite own_part_pfx. apply dec_hc_seg, D. Qed.
 End Flags.
 
+(* all nodes at once, for a branch whose roots carry a connector (Tree.format
+   with a title, the descendants of a start node): the prefixes give every
+   node's ancestors' flags and own flags *)
+Theorem flags_decode_all g roots :
+  style_okb g = true -> anc_distinct g = true -> last_distinct g = true ->
+  map (fun p => (decode_depth g p, decode_anc g p, dec_last g (own_part g p))) (rel_prefixes g true roots)
+  = map (fun c => (S (length (n_anc c)), map Some (n_anc c), Some (n_last c))) (ctxs_l [] roots).
+Proof.
+  intros OK DA DL. unfold rel_prefixes. rewrite map_map. apply map_ext. intros c.
+  assert (D : 1 <= rdepth true c) by (unfold rdepth; lia).
+  rewrite (decode_depth_pfx g true c OK), (decode_anc_pfx g true c OK D DA),
+          (decode_last_pfx g true c OK D DL).
+  reflexivity.
+Qed.
+
+Theorem hc_decode_all g roots :
+  style_okb g = true -> hc_distinct g = true ->
+  map (fun p => dec_hc g (own_part g p)) (rel_prefixes g true roots)
+  = map (fun c => Some (has_ch (n_node c))) (ctxs_l [] roots).
+Proof.
+  intros OK DH. unfold rel_prefixes. rewrite map_map. apply map_ext. intros c.
+  assert (D : 1 <= rdepth true c) by (unfold rdepth; lia).
+  apply (decode_hc_pfx g true c OK D DH).
+Qed.
+
 (* ------------------------------------------------------------------ *)
 (* what the flags of a context mean: positions in the sibling lists     *)
 (* ------------------------------------------------------------------ *)
